@@ -58,11 +58,18 @@ func c20E2E(key string) (lines []string, errText string, panics []string) {
 		return fakedocker.Container{ID: id, Name: "/" + id, Image: "img", State: "running", Labels: labels,
 			Log: fakedocker.Encode([]fakedocker.Rec{{Stream: 1, TS: fakedocker.TS(1 * sec), Msg: "from-" + id}})}
 	}
-	fake := fakedocker.New([]fakedocker.Container{mk("carrier", map[string]string{key: "v"}), mk("other", map[string]string{})})
+	// The Querier has answered a query before, when the daemon ran another container only: the container carrying the
+	// label was started since (what is listed is what the daemon runs now).
+	ctrs := []fakedocker.Container{mk("carrier", map[string]string{key: "v"}), mk("other", map[string]string{})}
+	fake := fakedocker.New([]fakedocker.Container{mk("earlier", map[string]string{})})
 	name := otelstorage.KeyToLabel(key)
 	s := vsched.RunMain(vsched.NewCtx(nil), func() {
 		q, _ := dockerlog.NewQuerier(fake)
-		data, err := newEngine(q).Eval(context.Background(), "{"+name+"="+strconv.Quote("v")+"}", logqlengine.EvalParams{Start: 0, End: otelstorage.Timestamp(3 * sec), Step: time.Second, Limit: -1})
+		eng := newEngine(q)
+		_, _ = eng.Eval(context.Background(), `{}`, logqlengine.EvalParams{Start: 0, End: otelstorage.Timestamp(3 * sec), Step: time.Second, Limit: -1})
+		fake.Containers = ctrs
+		fake.Opened, fake.Closed, fake.ReadBytes = make([]int, len(ctrs)), make([]int, len(ctrs)), make([]int, len(ctrs))
+		data, err := eng.Eval(context.Background(), "{"+name+"="+strconv.Quote("v")+"}", logqlengine.EvalParams{Start: 0, End: otelstorage.Timestamp(3 * sec), Step: time.Second, Limit: -1})
 		if err != nil {
 			errText = err.Error()
 			return
@@ -234,7 +241,24 @@ func c20Run(r *vkit.Run) {
 		}
 	}
 	rec("", 0)
-	dict := strings.Fields("com.docker.compose.project com.docker.compose.service org.opencontainers.image.title org.opencontainers.image.source maintainer io.kubernetes.pod.name desktop.docker.io/binds/0/Source 0day 9 traefik.http.routers.web.rule ip rate count sum sort topk vector bytes duration duration_seconds label_replace inf nan infinity true false null e pi")
+	// every character of the Basic Multilingual Plane (and a few beyond), alone, leading and inside a key: the mapping
+	// and its three laws, without the end-to-end part
+	for cp := rune(0); cp <= 0x1FFFF; cp++ {
+		if cp >= 0xD800 && cp <= 0xDFFF {
+			continue
+		}
+		if cp > 0xFFFF && cp%97 != 0 {
+			continue
+		}
+		idx++
+		if r.Mine(idx) && !r.Stop() {
+			for _, k := range []string{string(cp), "a" + string(cp), string(cp) + "9", "a" + string(cp) + "b"} {
+				c20Check(r, c20Input{Key: k})
+			}
+		}
+	}
+	r.GlobalState("every-character")
+	dict := strings.Fields("łódź tašk ıd a.乁 com.docker.compose.project com.docker.compose.service org.opencontainers.image.title org.opencontainers.image.source maintainer io.kubernetes.pod.name desktop.docker.io/binds/0/Source 0day 9 traefik.http.routers.web.rule ip rate count sum sort topk vector bytes duration duration_seconds label_replace inf nan infinity true false null e pi")
 	for k := range c20Keyword {
 		dict = append(dict, k)
 	}
@@ -252,7 +276,7 @@ func c20Run(r *vkit.Run) {
 			r.State(k)
 		}
 	}
-	r.Note("bounds", fmt.Sprintf("all strings of length 1..%d over 19 symbols (letters, digits, _, ., -, /, space, 2- and 3-byte runes, invalid bytes); end-to-end selection through Engine.Eval for every key of length <=3 and a %d-key dictionary incl. all LogQL keywords", maxLen, len(dict)))
+	r.Note("bounds", fmt.Sprintf("all strings of length 1..%d over 19 symbols (letters, digits, _, ., -, /, space, 2- and 3-byte runes, invalid bytes); every character of the Basic Multilingual Plane alone, leading, trailing and inside a key; end-to-end selection through Engine.Eval for every key of length <=3 and a %d-key dictionary incl. all LogQL keywords", maxLen, len(dict)))
 }
 
 func c20Replay(r *vkit.Run, v vkit.Violation) *vkit.Violation {
